@@ -19,6 +19,7 @@
   counter-example in the comment of the theorem.
 -/
 import YashModel.Args.Lemmas
+import YashModel.Args.Refine
 import YashModel.Generated.ArgSpecs
 namespace YashModel.Args
 
@@ -336,6 +337,53 @@ theorem portable_rejects_extension (specs : List OptionSpec) (mode : Mode) (pre 
   apply shortLoop_flags_error _ _ _ _ _ _ _ hg
   intro i; simp [shortLoop, hf, hx, hm]
 
+/-! ## refinement: the Impl model is the reference parser, modulo spelling
+
+  One theorem from which the laws follow as corollaries proved on the (much simpler) Spec side.  It also
+  backs the driver's per-case comparison `view (model) = Spec.parse` (spec column of the correspondence
+  run) by a proof for all inputs. -/
+
+/-- ☆ For every option table, every mode and every argument vector, the transcription of
+    `parse_arguments` delivers — modulo `OptionSpelling` — exactly what the reference parser of
+    `Spec.lean` delivers: the same options with the same arguments in the same order and the same
+    operands, or the same error (class, option character and named specs). -/
+theorem parse_refines_spec (specs : List OptionSpec) (mode : Mode) (args : List Str) :
+    (parseArguments specs mode args).view = Spec.parse specs mode args :=
+  parseArguments_view_eq_spec specs mode args
+
+/-- the hypothesis of the direct theorems (`OptionsOnly`, on the Impl loop) gives the Spec-side one -/
+theorem optionsOnly_transfers (specs : List OptionSpec) (mode : Mode) (pre : List Str) (os : List Occurrence)
+    (h : OptionsOnly specs mode pre os) : SpecOptionsOnly specs mode pre (os.map Occurrence.view) :=
+  specOptionsOnly_of_impl specs mode pre os h
+
+/-- ☆ `dashdash_ends` again, as a corollary of the refinement and the Spec-side law `spec_dashdash_ends`.
+    `SpecOptionsOnly pre vs`: the reference parser treats `pre` as nothing but the options `vs`, whatever follows. -/
+theorem dashdash_ends_via_spec (specs : List OptionSpec) (mode : Mode) (pre : List Str) (vs : List VOpt)
+    (xs : List Str) (h : SpecOptionsOnly specs mode pre vs) :
+    (parseArguments specs mode (pre ++ dashdash :: xs)).view = .ok (vs, xs) := by
+  rw [parse_refines_spec]; exact spec_dashdash_ends specs mode pre vs xs h
+
+/-- ☆ `first_operand_ends` again, via the Spec -/
+theorem first_operand_ends_via_spec (specs : List OptionSpec) (mode : Mode) (pre : List Str) (vs : List VOpt)
+    (x : Str) (xs : List Str) (h : SpecOptionsOnly specs mode pre vs) (hx : IsOperand x) :
+    (parseArguments specs mode (pre ++ x :: xs)).view = .ok (vs, x :: xs) := by
+  rw [parse_refines_spec]; exact spec_first_operand_ends specs mode pre vs x xs h hx
+
+/-- ☆ `group_eq_separate` again, via the Spec (`spec_group_eq_separate`) -/
+theorem group_eq_separate_via_spec (specs : List OptionSpec) (mode : Mode) (a : Char) (s : OptionSpec)
+    (cs : Str) (r : List Str) (hf : findShort specs a = some s) (ha : s.takesArg = false) (hd : a ≠ '-')
+    (hc : ∃ c0 cs', cs = c0 :: cs' ∧ c0 ≠ '-') :
+    (parseArguments specs mode (('-' :: a :: cs) :: r)).view =
+      (parseArguments specs mode (['-', a] :: ('-' :: cs) :: r)).view := by
+  rw [parse_refines_spec, parse_refines_spec]; exact spec_group_eq_separate specs mode a s cs r hf ha hd hc
+
+/-- ☆ `long_eq_arg` again (modulo spelling), via the Spec (`spec_long_eq_arg`) -/
+theorem long_eq_arg_via_spec (specs : List OptionSpec) (mode : Mode) (l x : Str) (r : List Str)
+    (hl : l ≠ []) (heq : '=' ∉ l) (ha : ∀ s, Denotes specs l s → s.takesArg = true) :
+    (parseArguments specs mode (('-' :: '-' :: (l ++ '=' :: x)) :: r)).view =
+      (parseArguments specs mode (('-' :: '-' :: l) :: x :: r)).view := by
+  rw [parse_refines_spec, parse_refines_spec]; exact spec_long_eq_arg specs mode l x r hl heq ha
+
 /-! ## the option tables of the real built-ins (generated from yash-builtin on every run) -/
 
 /-- ☆ No generated table has two options with the same short name or the same long name, and every
@@ -475,5 +523,29 @@ example : parseArguments exT Mode.portable ([['-','a']] ++ ['-','x'] :: []) = .e
     (by simp) (by decide) rfl rfl ⟨'x', [], rfl, by decide⟩
 example : (parseArguments exT Mode.portable [['-','a','b'], ['-','o'], ['X'], ['Y']]).view =
     .ok ([({ short := some 'a' }, none), ({ short := some 'b' }, none), (exO, some ['X'])], [['Y']]) := rfl
+
+/-- refinement on a concrete vector, and the Spec-side hypothesis met by `-a -o X` -/
+example : Spec.parse exT exM [['-','a','b','o','X'], ['-','-','o','u','=','Y'], ['-','-'], ['-','a']] =
+    .ok ([({ short := some 'a' }, none), ({ short := some 'b' }, none), (exO, some ['X']), (exO, some ['Y'])],
+      [['-','a']]) := rfl
+example : SpecOptionsOnly exT exM [['-','a'], ['-','o'], ['X']] [({ short := some 'a' }, none), (exO, some ['X'])] :=
+  optionsOnly_transfers exT exM _ [⟨{ short := some 'a' }, .short 1, none⟩, ⟨exO, .short 1, some ['X']⟩] rfl
+example : (parseArguments exT exM ([['-','a'], ['-','o'], ['X']] ++ dashdash :: [['-','b']])).view =
+    .ok ([({ short := some 'a' }, none), (exO, some ['X'])], [['-','b']]) :=
+  dashdash_ends_via_spec exT exM _ _ _
+    (optionsOnly_transfers exT exM _ [⟨{ short := some 'a' }, .short 1, none⟩, ⟨exO, .short 1, some ['X']⟩] rfl)
+example : (parseArguments exT exM ([['-','a']] ++ ['X'] :: [['-','b']])).view =
+    .ok ([({ short := some 'a' }, none)], [['X'], ['-','b']]) :=
+  first_operand_ends_via_spec exT exM _ _ _ _
+    (optionsOnly_transfers exT exM _ [⟨{ short := some 'a' }, .short 1, none⟩] rfl) (Or.inl (by decide))
+example : (parseArguments exT exM [['-','a','b'], ['X']]).view =
+    (parseArguments exT exM [['-','a'], ['-','b'], ['X']]).view :=
+  group_eq_separate_via_spec exT exM 'a' { short := some 'a' } ['b'] [['X']] (by decide) rfl (by decide)
+    ⟨'b', [], rfl, by decide⟩
+example : (parseArguments exT exM [['-','-','o','u','=','X'], ['Y']]).view =
+    (parseArguments exT exM [['-','-','o','u'], ['X'], ['Y']]).view :=
+  long_eq_arg_via_spec exT exM ['o','u'] ['X'] [['Y']] (by decide) (by decide)
+    (by intro s h; have h' : Denotes exT ['o','u'] exO := by decide
+        unfold Denotes at h h'; rw [h'] at h; cases h; rfl)
 
 end YashModel.Args
